@@ -51,12 +51,40 @@ def processEntry {K : Type} [Add K] [Mul K] [Zero K] [HasConj K] {d : Nat} (B_al
   Mat.trace (Mat.mul (kron (Mat.transpose (conjM (B_alpha))) (Mat.transpose (B_beta))) (hs_comp))
 
 /-- gate.py:to_var_from_choi `hs = to_hs_from_choi_with_sparsity(c_sys, choi)` -/
-def toVarFromChoiCallee : String :=
-  "to_hs_from_choi_with_sparsity"
+def toVarFromChoiHs {K : Type} [Add K] [Mul K] [Zero K] [HasConj K] {d : Nat} (B : Basis K d (d * d)) (choi : Mat K (d * d) (d * d)) : Mat K (d * d) (d * d) :=
+  hsOfChoiSparseRaw B choi
 
 /-- gate.py:to_choi_from_var `choi = to_choi_from_hs_with_sparsity(c_sys, hs)` -/
-def toChoiFromVarCallee : String :=
-  "to_choi_from_hs_with_sparsity"
+def toChoiFromVarChoi {K : Type} [Add K] [Mul K] [Zero K] [HasConj K] {d : Nat} (B : Basis K d (d * d)) (hs : Mat K (d * d) (d * d)) : Mat K (d * d) (d * d) :=
+  choiSparse B hs
+
+/-- state.py:to_density_matrix_from_vec `density_vec = c_sys.basis_T_sparse.dot(vec)`; `density = density_vec.reshape((c_sys.dim, c_sys.dim))` -/
+def densitySparseTerm {K : Type} [Add K] [Mul K] [Zero K] [HasConj K] {d n : Nat} (B : Basis K d n) (vec : Vec K n) : Mat K d d :=
+  unflat (Mat.mulVec (basisT B) (vec))
+
+/-- state.py:to_vec_from_density_matrix_with_sparsity `vec = c_sys.basisconjugate_sparse.dot(mutil.flatten(density_matrix))` -/
+def vecOfDensityTerm {K : Type} [Add K] [Mul K] [Zero K] [HasConj K] {d n : Nat} (B : Basis K d n) (density_matrix : Mat K d d) : Vec K n :=
+  Mat.mulVec (basisConj B) (flat (density_matrix))
+
+/-- povm.py:to_vec_from_matrix_with_sparsity `vec = c_sys.basisconjugate_sparse.dot(matrix.flatten())` -/
+def povmVecOfMatrixTerm {K : Type} [Add K] [Mul K] [Zero K] [HasConj K] {d n : Nat} (B : Basis K d n) (matrix : Mat K d d) : Vec K n :=
+  Mat.mulVec (basisConj B) (flat (matrix))
+
+/-- povm.py:Povm.matrix_with_sparsity `vec = self.vec(index)`; `new_vec = self.composite_system.basis_T_sparse.dot(vec)`; `matrix = new_vec.reshape((self.dim, self.dim))` -/
+def povmMatrixSparseTerm {K : Type} [Add K] [Mul K] [Zero K] [HasConj K] {d n : Nat} (B : Basis K d n) (vec : Vec K n) : Mat K d d :=
+  unflat (Mat.mulVec (basisT B) (vec))
+
+/-- State.to_density_matrix `for coefficient, basis in zip(self._vec, self.composite_system.basis()): density += coefficient * basis` -/
+def densityLoopTerm {K : Type} [Add K] [Mul K] [Zero K] [HasConj K] {d : Nat} (acc : Mat K d d) (coefficient : K) (basis : Mat K d d) : Mat K d d :=
+  Mat.add acc (Mat.smul (coefficient) (basis))
+
+/-- Povm.matrices `for coefficient, basis in zip(v, self.composite_system.basis()): matrix += coefficient * basis` -/
+def povmMatricesLoopTerm {K : Type} [Add K] [Mul K] [Zero K] [HasConj K] {d : Nat} (acc : Mat K d d) (coefficient : K) (basis : Mat K d d) : Mat K d d :=
+  Mat.add acc (Mat.smul (coefficient) (basis))
+
+/-- Povm.matrix `for coefficient, basis in zip(vec, self.composite_system.basis()): matrix += coefficient * basis` -/
+def povmMatrixLoopTerm {K : Type} [Add K] [Mul K] [Zero K] [HasConj K] {d : Nat} (acc : Mat K d d) (coefficient : K) (basis : Mat K d d) : Mat K d d :=
+  Mat.add acc (Mat.smul (coefficient) (basis))
 
 /-- composite_system.py:basis_basisconjugate `b_alpha = basis[alpha]`; `b_beta_conj = np.conjugate(basis[beta])`; `matrix = matrix_util.kron(b_alpha, b_beta_conj)` -/
 def bbc_dense {K : Type} [Mul K] [HasConj K] {d n : Nat} (basis : Basis K d n) (alpha beta : Fin n) : Mat K (d * d) (d * d) :=
@@ -111,8 +139,7 @@ def truncEntryGen (eps : Rat) (z : CRat) : Except Err Rat :=
   if !(truncImagCond eps z) && z.im != 0 then .error .imagNonZero
   else .ok (if truncFluctCond eps z.re then 0 else z.re)
 
-/-- povm.py:Povm._md_index2serial_index: `np.array(range(n)).reshape(nums_local_outcomes)[i1][i2]…` matched (row-major table lookup); povm.py:Povm.matrix_with_sparsity: `basis_T_sparse.dot(self.vec(index)).reshape((dim, dim))` matched -/
-def povmSkeletonMatched : Bool :=
-  true
+-- povm.py:Povm._md_index2serial_index matched the row-major index-table skeleton (generator-side guard: a different body makes
+-- the generator fail; the model's `mdSerial` is tied to it by the correspondence on all multi-indices, not by a theorem)
 
 end QGen.C02
